@@ -1,6 +1,7 @@
 (* Extraction of the RLP model for ocaml/rlp/driver.ml.  ExtrOcamlBasic only. *)
-From AQ Require Import Lib.Bytes Lib.ExtractBase Lib.Keccak Rlp.RlpSpec.
+From AQ Require Import Lib.Bytes Lib.ExtractBase Lib.Keccak Rlp.RlpSpec Rlp.Typed Rlp.TypedGen.
 Require Extraction.
 Require Import ExtrOcamlBasic.
 Extraction "../ocaml/rlp/model.ml" base_anchor keccak256
-  encode decode decode_exact split count_values fits encode_uint item_to_uint.
+  encode decode decode_exact split count_values fits encode_uint item_to_uint
+  typed_recode all_wf.
